@@ -155,3 +155,16 @@ CLAIMS["C01"] = {
     "note": "Trusted: the cryptographic primitives, flynn/noise, crypto/tls, crypto/x509. TLS plaintext record headers and the ChangeCipherSpec record are judged by the identity oracle only (unauthenticated by TLS 1.3); bytes after a "
             "side's last handshake frame are post-handshake data; a stalled handshake (virtual 10 s) counts as a rejection; QUIC only for expected-peer mismatch; WebTransport/WebRTC not exercised.",
 }
+
+CLAIMS["C11"] = {
+    "technique": "model-based property testing of operation histories with fault injection, concurrent batches and virtual time (rapid + synctest); mutation-based testing of the client's reply validation; real-stack smoke test (thorough)",
+    "design_ref": "DESIGN.md section 3, C11",
+    "text": "The real relay service runs on a fake host (real peerstore, event bus, resource manager, BasicConnMgr; scripted stop streams) inside a bubble and is compared with a reference model over generated histories of RESERVE / "
+            "CONNECT / refresh (incl. cross-IP over a second connection) / disconnect / expiry / collection for populations with direct and relayed sources, shared IPs, IPv6 ASNs and multi-connection peers, with a fault at every "
+            "step of the hop/stop handshake, resource refusals, payloads around Limit.Data in both directions, idle circuits past Limit.Duration and batches of requests at one instant: no circuit without a live reservation, direct "
+            "source, ACL permission and room under MaxCircuits; no reservation beyond total/per-IP/per-ASN caps; vouchers signed by the relay for exactly the reserving peer with the reply's expiry; forwarded bytes a prefix and "
+            "<= Limit.Data; circuits end by Limit.Duration; after every outcome tags, service-scope memory and stream counts match the model and MaxCircuits circuits can be opened again. client.Reserve accepts only valid, unexpired, "
+            "correctly signed vouchers for the caller (40 reply mutations). Two genuine defects found and repaired. 29/31 probe mutants detected. Exploration.",
+    "note": "Trusted: the fake host's fidelity to swarm/basic host, asnutil, record.ConsumeEnvelope (C08). Between expiry and collection, after lost replies and with only limited connections left either answer is accepted; "
+            "interleavings inside a batch come from the scheduler (a lock window of only Unlock/Lock is missed); the real circuit transport is smoke-tested only.",
+}
